@@ -700,6 +700,10 @@ def _den_func(x, level):
     if name in ("UPPER", "LOWER", "TRIM"):
         f = z3.Function({"UPPER": "upper", "LOWER": "lower", "TRIM": "strip_ws"}[name], STR, STR)
         return N.lift(lambda a: f(a), ds[0])
+    if name in ("DATE", "DATETIME") and len(ds) == 1:
+        _ax("SQLite: date(x) / datetime(x) are null for null x and otherwise the engine's conversion (uninterpreted)")
+        f = z3.Function(f"sqlite_{name.lower()}", ds[0].sort, INT)
+        return N.lift(lambda a: f(a), ds[0])
     if name == "LENGTH":
         return N.lift(lambda a: z3.Length(a), ds[0])
     if name == "REPLACE":
